@@ -329,6 +329,276 @@ pub fn generate(thorough: bool, seed: u64, out: &mut dyn Write) {
         let subs = move |_r: &mut Rng| -> usize { nsub };
         emit_sheet(&mut rng, out, &sh, 1, &subs, 1);
     }
+
+    // --- sheets stored in a synthetic installation, read through GameData ----------------------
+    let mut arng = Rng::new(seed, "C05-archive");
+    sweep_sheets(&mut arng, out);
+    for i in 0..(if thorough { 4_000 } else { 160 }) {
+        gen_sheets(&mut arng, i, out);
+    }
+}
+
+// ------------------------------------------------------------------------------------------------
+// sheets in an archive (op `sheets`): abstract installations; every byte of every file is produced
+// by the Lean `Spec/` encoders and comes back in `input`
+// ------------------------------------------------------------------------------------------------
+
+fn mangle_case(rng: &mut Rng, s: &str) -> String {
+    s.chars()
+        .map(|c| if rng.chance(1, 2) { if c.is_ascii_uppercase() { c.to_ascii_lowercase() } else { c.to_ascii_uppercase() } } else { c })
+        .collect()
+}
+
+fn sheet_name(rng: &mut Rng, has_ex1: bool) -> String {
+    let word = |rng: &mut Rng| -> String {
+        let n = rng.range(1, 10) as usize;
+        (0..n)
+            .map(|i| match rng.below(10) {
+                0 => (b'0' + rng.below(10) as u8) as char,
+                1 => '_',
+                2..=4 => (b'A' + rng.below(26) as u8) as char,
+                _ if i == 0 => (b'A' + rng.below(26) as u8) as char,
+                _ => (b'a' + rng.below(26) as u8) as char,
+            })
+            .collect()
+    };
+    match rng.below(12) {
+        0 => "Item".to_string(),
+        1 => "Achievement".to_string(),
+        2 => format!("quest/{:03}/{}_{:05}", rng.below(40), word(rng), rng.below(100000)),
+        3 => format!("custom/{:03}/Cts{}_{:05}", rng.below(10), word(rng), rng.below(100000)),
+        4 => format!("{}/{}", word(rng), word(rng)),
+        5 => format!("{}/{}/{}", word(rng), word(rng), word(rng)),
+        // a first component that names a repository directory: the file then lives in that repository
+        6 => format!("{}/{}", if has_ex1 || rng.chance(1, 2) { "ex1" } else { "ex2" }, word(rng)),
+        7 => word(rng).to_ascii_uppercase(),
+        8 => word(rng).to_ascii_lowercase(),
+        _ => word(rng),
+    }
+}
+
+fn store_spec(rng: &mut Rng) -> String {
+    let chunk = match rng.below(6) { 0 => rng.range(1, 3), 1 => rng.range(1, 9), _ => 0 };
+    let kinds = rng.range(1, 3);
+    let dat = match rng.below(4) { 0 => rng.below(8), _ => rng.below(2) };
+    let gap = match rng.below(3) { 0 => rng.range(1, 3), _ => 0 };
+    let n = rng.range(1, 3);
+    let pat: Vec<String> = (0..n)
+        .map(|_| {
+            let size = match rng.below(8) {
+                0 => 1,
+                1 => rng.range(2, 16),
+                2 => rng.range(100, 130),
+                3 => 16000,
+                4 | 5 => rng.range(16, 400),
+                _ => rng.range(400, 16000),
+            };
+            format!("{}{}", size, rng.pick(&['r', 's', 'f', 'r']))
+        })
+        .collect();
+    format!("{}.{}.{}.{}.{}", chunk, kinds, dat, gap, pat.join("_"))
+}
+
+/// bounded-exhaustive: index kinds (index / index2 / both) x block mode (raw / stored / fixed
+/// Huffman) x all 8 languages, platform and chunk cycling; one two-page sheet in a sub-directory
+/// with upper-case letters; root list, header and page 1 stored; names, header, rows, a page that
+/// is not stored, the page name in another spelling
+fn sweep_sheets(rng: &mut Rng, out: &mut dyn Write) {
+    let name = "Quest/000/ClsHrv000_00023";
+    let hn = hex(name.as_bytes());
+    let mut n = 0u64;
+    for kinds in 1..=3u32 {
+        for mode in ['r', 's', 'f'] {
+            for lang in 0..8u8 {
+                n += 1;
+                let chunk = n % 3;
+                let st = |size: u32, dat: u64| format!("{}.{}.{}.0.{}{}", chunk, kinds, dat, size, mode);
+                let other_lang = (lang + 1) % 8;
+                let a = rng.below(1 << 16);
+                let b = rng.below(1 << 16);
+                writeln!(
+                    out,
+                    "sheets {} 6666786976 n,h{},s{}.{}.{}.1.500.501.7,s{}.{}.{}.1.500,s{}.{}.{}.0.3,h{} R {} 2 41:1,{}:7 S {} {} 0 3 8 0:0,5:4,25:6,32:6 0:500,500:500 {},{} 1000 P 1 {} {} 500=s:{},u16:{},b:1,b:0;501=s:-,u16:{},b:0,b:1",
+                    n % 5,
+                    hn,
+                    hn, hn, lang,
+                    hn, hex(name.to_ascii_uppercase().as_bytes()), lang,
+                    hn, hn, other_lang,
+                    hex(name.to_ascii_lowercase().as_bytes()),
+                    st(9, 0), hn,
+                    hn, st(20, n % 2), lang, other_lang,
+                    lang, st(33, n % 8),
+                    hex(format!("row {}", n).as_bytes()), a, b
+                )
+                .unwrap();
+            }
+        }
+    }
+}
+
+fn gen_sheets(rng: &mut Rng, i: usize, out: &mut dyn Write) {
+    let plat = rng.below(5);
+    let has_ex1 = rng.chance(1, 3);
+    let mut dirs: Vec<&str> = vec!["ffxiv"];
+    if has_ex1 {
+        dirs.push("ex1");
+    }
+    if rng.chance(1, 4) {
+        dirs.push("ex3");
+    }
+    if rng.chance(1, 5) {
+        dirs.push(*rng.pick(&["zzz", "movie", "exa"]));
+    }
+    for k in (1..dirs.len()).rev() {
+        let j = rng.below(k as u64 + 1) as usize;
+        dirs.swap(k, j);
+    }
+
+    // sheets with names that differ even when letter case is ignored
+    let n_sheets = match rng.below(4) { 0 => 1, 1 | 2 => 2, _ => rng.range(3, 4) } as usize;
+    let mut names: Vec<String> = vec![];
+    while names.len() < n_sheets {
+        let n = sheet_name(rng, has_ex1);
+        if !names.iter().any(|m| m.eq_ignore_ascii_case(&n)) && n != "root" {
+            names.push(n);
+        }
+    }
+    let mut records: Vec<String> = vec![];
+    // root list: the sheets (one of them sometimes missing) and a few names without files
+    let mut listed: Vec<String> = names.clone();
+    if listed.len() > 1 && rng.chance(1, 8) {
+        listed.pop();
+    }
+    let mut unlisted_extra: Vec<String> = vec![];
+    for _ in 0..rng.below(4) {
+        let n = sheet_name(rng, has_ex1);
+        if !names.iter().chain(listed.iter()).any(|m| m.eq_ignore_ascii_case(&n)) {
+            listed.push(n.clone());
+            unlisted_extra.push(n);
+        }
+    }
+    for k in (1..listed.len()).rev() {
+        let j = rng.below(k as u64 + 1) as usize;
+        listed.swap(k, j);
+    }
+    let root_store = if rng.chance(1, 14) { "-".to_string() } else { store_spec(rng) };
+    let ents: Vec<String> = listed
+        .iter()
+        .map(|n| format!("{}:{}", hex(n.as_bytes()), match rng.below(4) { 0 => -1i64, 1 => 0, _ => rng.below(100000) as i64 }))
+        .collect();
+    records.push(format!("R {} {} {}", root_store, rng.below(5), if ents.is_empty() { "-".to_string() } else { ents.join(",") }));
+
+    // (name, lang, page index, stored ids) of the stored pages; (name, lang, page index) of absent ones
+    let mut stored_pages: Vec<(String, u8, usize, Vec<u32>)> = vec![];
+    let mut absent_pages: Vec<(String, u8, usize)> = vec![];
+    for name in &names {
+        let sub = rng.chance(1, 2);
+        let ncols = match rng.below(3) { 0 => rng.range(1, 3), _ => rng.range(3, 9) } as usize;
+        let sh = sheet(rng, sub, ncols, 0);
+        let hdr_store = if rng.chance(1, 12) { "-".to_string() } else { store_spec(rng) };
+        records.push(format!("S {} {} {}", hex(name.as_bytes()), hdr_store, sh.header_fields()));
+        for (k, (start, cnt)) in sh.pages.iter().enumerate() {
+            let mut langs: Vec<u8> = sh.langs.clone();
+            langs.sort();
+            langs.dedup();
+            for l in langs {
+                if !rng.chance(2, 3) {
+                    absent_pages.push((name.clone(), l, k));
+                    continue;
+                }
+                if rng.chance(1, 10) {
+                    records.push(format!("P {} {} - -", k, l));
+                    absent_pages.push((name.clone(), l, k));
+                    continue;
+                }
+                let nrows = rng.range(0, 6) as usize;
+                let mut ids: Vec<u32> = vec![];
+                while ids.len() < nrows {
+                    let id = start.wrapping_add(rng.below((*cnt).min(50) as u64) as u32);
+                    if !ids.contains(&id) {
+                        ids.push(id);
+                    } else if *cnt as usize <= ids.len() {
+                        break;
+                    }
+                }
+                // ids in index order need not be ascending
+                if rng.chance(1, 3) {
+                    ids.reverse();
+                }
+                // never exactly one sub-row: that class (open finding exd.single-subrow) is exercised by the
+                // direct-buffer `row` cases; a tagged archive case would mask its other answers
+                let subs = |r: &mut Rng| -> usize { r.range(2, 5) as usize };
+                let rows = if ids.is_empty() { "-".to_string() } else { rows_field(rng, &sh, &ids, &subs) };
+                records.push(format!("P {} {} {} {}", k, l, store_spec(rng), rows));
+                stored_pages.push((name.clone(), l, k, ids));
+            }
+            // a language the header does not list is simply not stored
+            if rng.chance(1, 6) {
+                let l = rng.below(8) as u8;
+                if !sh.langs.contains(&l) {
+                    absent_pages.push((name.clone(), l, k));
+                }
+            }
+        }
+    }
+
+    // calls, all on one handle
+    let n_calls = if i % 7 == 0 { rng.range(1, 3) } else { rng.range(5, 14) };
+    let mut calls: Vec<String> = vec![];
+    let hx = |s: &String| hex(s.as_bytes());
+    for _ in 0..n_calls {
+        let c = match rng.below(16) {
+            0 | 1 => "n".to_string(),
+            2..=4 => format!("h{}", hx(rng.pick(&names))),
+            5 => {
+                // a spelling the root list does not contain (unless it is the same spelling)
+                let n = rng.pick(&names).clone();
+                format!("h{}", hx(&mangle_case(rng, &n)))
+            }
+            6 => match rng.below(3) {
+                0 if !unlisted_extra.is_empty() => format!("h{}", hx(rng.pick(&unlisted_extra))),
+                1 => { let n = sheet_name(rng, has_ex1); format!("h{}", hx(&n)) }
+                _ => format!("h{}78", hx(rng.pick(&names))),
+            },
+            7..=11 if !stored_pages.is_empty() => {
+                let (name, l, k, ids) = rng.pick(&stored_pages).clone();
+                let pname = if rng.chance(1, 4) { mangle_case(rng, &name) } else { name.clone() };
+                let mut q: Vec<String> = vec![];
+                for _ in 0..rng.range(1, 3) {
+                    if !ids.is_empty() && rng.chance(4, 5) {
+                        q.push(rng.pick(&ids).to_string());
+                    } else {
+                        q.push(rng.u32_edge().to_string());
+                    }
+                }
+                format!("s{}.{}.{}.{}.{}", hx(&name), hx(&pname), l, k, q.join("."))
+            }
+            12 | 13 if !absent_pages.is_empty() => {
+                let (name, l, k) = rng.pick(&absent_pages).clone();
+                format!("s{}.{}.{}.{}.{}", hx(&name), hx(&name), l, k, rng.below(100))
+            }
+            14 => {
+                let p = match rng.below(4) {
+                    0 => "exd/root.exl".to_string(),
+                    1 => format!("exd/{}.exh", rng.pick(&names)),
+                    2 => format!("EXD/{}.EXH", rng.pick(&names).to_ascii_uppercase()),
+                    _ => format!("exd/{}_0.exd", rng.pick(&names)),
+                };
+                format!("{}{}", rng.pick(&['e', 'o']), hx(&p))
+            }
+            _ => format!("h{}", hx(rng.pick(&names))),
+        };
+        calls.push(c);
+    }
+    writeln!(
+        out,
+        "sheets {} {} {} {}",
+        plat,
+        dirs.iter().map(|d| hex(d.as_bytes())).collect::<Vec<_>>().join(","),
+        calls.join(","),
+        records.join(" ")
+    )
+    .unwrap();
 }
 
 fn show(c: &ColumnData) -> String {
@@ -423,8 +693,133 @@ pub fn run(case: &str, input: &str) -> String {
                 }
             })
         }
+        "sheets" if f.len() == 5 => run_sheets(f[1], f[2], f[3], f[4]),
         _ => "bad-case".into(),
     }
+}
+
+fn show_exh(exh: &EXH) -> String {
+    let j = |v: Vec<String>| if v.is_empty() { "-".to_string() } else { v.join(",") };
+    format!(
+        "{} {} {} {} {}",
+        exh.header.data_offset,
+        exh.header.row_count,
+        j(exh.column_definitions.iter().map(|c| format!("{}:{}", c.data_type.clone() as u16, c.offset)).collect()),
+        j(exh.pages.iter().map(|p| format!("{}:{}", p.start_id, p.row_count)).collect()),
+        j(exh.languages.iter().map(|l| (*l as u8).to_string()).collect())
+    )
+}
+
+/// the installation of a `sheets` case: every file comes from the Lean driver (Spec encoders) as
+/// hex and is written below a scratch `<tmp>/game/sqpack/<dir>/` (as `c01.rs` does); all calls are
+/// issued on one `GameData` handle
+fn run_sheets(plat: &str, dirs: &str, files: &str, calls: &str) -> String {
+    use physis::common::Platform;
+    use physis::gamedata::GameData;
+    use std::panic::AssertUnwindSafe;
+    let plat = match plat {
+        "0" => Platform::Win32,
+        "1" => Platform::PS3,
+        "2" => Platform::PS4,
+        "3" => Platform::PS5,
+        "4" => Platform::Xbox,
+        _ => return "bad-case".into(),
+    };
+    let text = |h: &str| unhex(h).and_then(|b| String::from_utf8(b).ok());
+    let tmp = TempDir::new("c05a");
+    let game = tmp.path().join("game");
+    let sqpack = game.join("sqpack");
+    std::fs::create_dir_all(&sqpack).unwrap();
+    let mut dir_names: Vec<String> = vec![];
+    if dirs != "-" {
+        for d in dirs.split(',') {
+            let Some(d) = text(d) else { return "bad-case".into() };
+            std::fs::create_dir_all(sqpack.join(&d)).unwrap();
+            dir_names.push(d);
+        }
+    }
+    if files != "-" {
+        for file in files.split(';') {
+            let Some((name, content)) = file.split_once(':') else { return "bad-case".into() };
+            let Some((d, n)) = name.split_once('/') else { return "bad-case".into() };
+            let (Some(d), Some(n), Some(content)) = (text(d), text(n), unhex(content)) else { return "bad-case".into() };
+            if !dir_names.contains(&d) {
+                return "bad-case".into();
+            }
+            std::fs::write(sqpack.join(&d).join(&n), content).unwrap();
+        }
+    }
+    let gd = game.to_str().unwrap().to_string();
+    let mut game = match std::panic::catch_unwind(move || GameData::from_existing(plat, &gd)) {
+        Ok(Some(g)) => g,
+        Ok(None) => return "nohandle".into(),
+        Err(_) => return "panic:open".into(),
+    };
+    let mut answers: Vec<String> = vec![];
+    for c in calls.split(',') {
+        let (kind, rest) = c.split_at(1);
+        let mut g = AssertUnwindSafe(&mut game);
+        let a = match kind {
+            "n" => guarded(move || match g.get_all_sheet_names() {
+                None => "none".into(),
+                Some(ns) if ns.is_empty() => "N-".into(),
+                Some(ns) => format!("N{}", ns.iter().map(|n| hex(n.as_bytes())).collect::<Vec<_>>().join(",")),
+            }),
+            "h" => {
+                let Some(name) = text(rest) else { return "bad-case".into() };
+                guarded(move || match g.read_excel_sheet_header(&name) {
+                    None => "none".into(),
+                    Some(exh) => format!("H{}", show_exh(&exh)),
+                })
+            }
+            "s" => {
+                let p: Vec<&str> = rest.split('.').collect();
+                if p.len() < 4 {
+                    return "bad-case".into();
+                }
+                let (Some(hname), Some(pname), Some(lang), Ok(page)) =
+                    (text(p[0]), text(p[1]), p[2].parse::<u8>().ok().and_then(language), p[3].parse::<usize>())
+                else {
+                    return "bad-case".into();
+                };
+                let mut ids: Vec<u32> = vec![];
+                for t in &p[4..] {
+                    let Ok(id) = t.parse::<u32>() else { return "bad-case".into() };
+                    ids.push(id);
+                }
+                guarded(move || {
+                    let Some(exh) = g.read_excel_sheet_header(&hname) else { return "hdr-none".into() };
+                    let Some(exd) = g.read_excel_sheet(&pname, &exh, lang, page) else { return "page-none".into() };
+                    let rows: Vec<String> = ids
+                        .iter()
+                        .map(|id| match exd.read_row(&exh, *id) {
+                            None => "none".to_string(),
+                            Some(rows) => rows
+                                .iter()
+                                .map(|r| r.data.iter().map(show).collect::<Vec<_>>().join(","))
+                                .collect::<Vec<_>>()
+                                .join("|"),
+                        })
+                        .collect();
+                    format!("S{}", rows.join("+"))
+                })
+            }
+            "e" => {
+                let Some(p) = text(rest) else { return "bad-case".into() };
+                guarded(move || if g.exists(&p) { "T".into() } else { "F".into() })
+            }
+            "o" => {
+                let Some(p) = text(rest) else { return "bad-case".into() };
+                guarded(move || match g.find_offset(&p) {
+                    Some(o) => format!("o{}", o),
+                    None => "onone".into(),
+                })
+            }
+            _ => return "bad-case".into(),
+        };
+        answers.push(a);
+    }
+    answers.join(";")
 }
 
 /// T2: the code tables of the *compiled* reader, exhaustively: every u16 as a column type code and
